@@ -127,7 +127,33 @@ pub struct Counters {
   pub ticks: std::sync::Mutex<Vec<u64>>,
   /// number of Ticker instances built (inner sub-trees are built per outer item)
   pub ticker_instances: AtomicU64,
+  /// global event stamps of every subscription a flattening operator made to
+  /// one of its inner observables
+  pub inner_subs: std::sync::Mutex<Vec<u64>>,
+  /// ... and of every outer item arriving at a flattening operator (= an
+  /// inner observable being built)
+  pub inner_builds: std::sync::Mutex<Vec<u64>>,
 }
+
+/// Wrapper around an inner observable of a flattening operator that records
+/// when it is subscribed.
+#[derive(Clone)]
+pub struct StampSrc<S> {
+  inner: S,
+  c: std::sync::Arc<Counters>,
+}
+impl<S, O> Observable<Val, E, O> for StampSrc<S>
+where
+  S: Observable<Val, E, O>,
+  O: Observer<Val, E>,
+{
+  type Unsub = S::Unsub;
+  fn actual_subscribe(self, o: O) -> S::Unsub {
+    self.c.inner_subs.lock().unwrap().push(crate::world::shared().seq.load(SeqCst));
+    self.inner.actual_subscribe(o)
+  }
+}
+impl<S> ObservableExt<Val, E> for StampSrc<S> {}
 
 pub struct CountIt {
   i: u8,
@@ -258,11 +284,13 @@ macro_rules! build_fn {
           let inners = inners.clone();
           let env2 = env.clone();
           let f = move |v: Val| {
+            let c = env2.counters.clone();
+            c.inner_builds.lock().unwrap().push(crate::world::shared().seq.load(SeqCst));
             if inners.is_empty() {
-              $fname(&Node::Empty, &env2)
+              StampSrc { inner: $fname(&Node::Empty, &env2), c }
             } else {
               let k = v.weight().rem_euclid(inners.len() as i64) as usize;
-              $fname(&inners[k], &env2)
+              StampSrc { inner: $fname(&inners[k], &env2), c }
             }
           };
           match (form % 4, n) {
